@@ -202,10 +202,10 @@ def run(ctx):
     path = os.path.join(d, 'cases.txt')
     with open(path, 'w') as f:
         f.write('\n'.join(lines) + '\n')
-    impl, _ = core.run_tool(ctx.harness, ['c16', 'obs', path], timeout=3000)
+    impl, _ = core.run_tool_sharded(ctx.harness, ['c16', 'obs'], path)
     impl = [l for l in impl if l]
     if ctx.model:
-        model, _ = core.run_tool(ctx.model, ['c16', 'obs', path])
+        model, _ = core.run_tool_sharded(ctx.model, ['c16', 'obs'], path)
         for k, a, b in core.diff_lines(model, impl, limit=10):
             fa, fb = fields(a), fields(b)
             which = [x for x in set(fa) | set(fb) if fa.get(x) != fb.get(x)]
